@@ -366,7 +366,11 @@ func c10Class(stmts []string) string {
 	}
 	for _, piece := range strings.Split(body, ", ") {
 		pu := strings.ToUpper(piece)
-		if strings.Contains(pu, "UNIQUE") && strings.Contains(pu, "PRIMARY KEY DESC") && !strings.Contains(pu, "(") {
+		tp := strings.TrimSpace(pu)
+		if strings.HasPrefix(tp, "PRIMARY KEY") || strings.HasPrefix(tp, "UNIQUE") || strings.HasPrefix(tp, "CONSTRAINT") || strings.HasPrefix(tp, "FOREIGN") {
+			continue // a table constraint, not a column definition
+		}
+		if strings.Contains(pu, "UNIQUE") && strings.Contains(pu, "PRIMARY KEY DESC") {
 			return ":unique+primary-key-desc-on-one-column"
 		}
 	}
